@@ -28,7 +28,8 @@ RULE = (
 ASSUMPTIONS = [
     "in-memory DataIndex (sqltrie.PyGTrie over pygtrie) with an empty storage map: no lazy loading, so "
     "DataIndexDirError/UNKNOWN cannot arise and `with_unknown` is left out of the proved core",
-    "roots = [()] (the default) and the default callback",
+    "the default callback; `roots` other than [()] is modelled (diff_core_roots) and tied by correspondence + a "
+    "restricted flat-reference oracle for prefix-free roots, but the theorems are for roots = [()]",
     "entry.key equals the key the entry is stored under",
     "Meta / HashInfo equality is attrs equality over the eq=True fields (generated meta_eqb / hashinfo_eqb) with "
     "values that are reflexive under == (no NaN mtime); meta_cmp_key is a pure function of the Meta",
@@ -120,7 +121,7 @@ def obs_side(e):
     }
 
 
-def real_diff(old_entries, new_entries, code):
+def real_diff(old_entries, new_entries, code, roots=None):
     """-> ("ok", [ (typ, old side, new side) ]) | ("err", code)"""
     from dvc_data.index.diff import diff
 
@@ -130,7 +131,8 @@ def real_diff(old_entries, new_entries, code):
     try:
         out = list(diff(old, new, with_renames=f["with_renames"], with_unchanged=f["with_unchanged"],
                         hash_only=f["hash_only"], meta_only=f["meta_only"],
-                        meta_cmp_key=_cmp_key if f["cmp"] else None, shallow=f["shallow"]))
+                        meta_cmp_key=_cmp_key if f["cmp"] else None, shallow=f["shallow"],
+                        **({} if roots is None else {"roots": [tuple(r) for r in roots]})))
     except Exception as exc:  # noqa: BLE001
         return ("err", impl.err_code(exc), type(exc).__name__)
     return ("ok", [(c.typ, obs_side(c.old), obs_side(c.new)) for c in out])
@@ -738,6 +740,57 @@ def _side0(e):
 # --------------------------------------------------------------------------------------
 
 
+def is_antichain(roots):
+    rs = [tuple(r) for r in roots]
+    if len(set(rs)) != len(rs):
+        return False
+    return not any(a != b and b[: len(a)] == a for a in rs for b in rs)
+
+
+def roots_problems(old, new, roots, code, res):
+    """oracle for one `roots=` run: for prefix-free roots and shallow=False the output is the flat
+    reference restricted to the keys at or below a root"""
+    f = opt_flags(code)
+    eff = [tuple(r) for r in roots] or [()]
+    if res[0] != "ok":
+        if f["with_renames"] and f["meta_only"] and old is not None and new is not None:
+            return []
+        return [(f"C08:unexpected-exception:{res[2]}", f"diff(roots=...) raised {res[2]}")]
+    if not is_antichain(eff) or f["shallow"]:
+        return []
+    plain = res[1]
+    if f["with_renames"] and old is not None and new is not None:
+        pres = real_diff(old, new, code & ~1, roots=roots)
+        plain = pres[1] if pres[0] == "ok" else []
+    got = collections.Counter((c[0], c[1] and c[1]["key"], c[2] and c[2]["key"]) for c in plain)
+    ref = collections.Counter({x: n for x, n in flat_reference(old, new, f).items()
+                               if any((x[1] if x[1] is not None else x[2])[: len(r)] == r for r in eff)})
+    if got != ref:
+        return [("C08:roots-flat-mismatch",
+                 f"diff(roots={eff}) differs from the flat reference at or below the roots: missing "
+                 f"{sorted(ref - got, key=repr)} extra {sorted(got - ref, key=repr)}")]
+    return []
+
+
+def judge_roots(ctx, case):
+    """`roots=` runs: model = implementation always, plus roots_problems"""
+    old, new, roots, codes = case["old"], case["new"], case["roots"], case["codes"]
+    expected = []
+    eff = [tuple(r) for r in roots] or [()]
+    for code in codes:
+        res = real_diff(old, new, code, roots=roots)
+        expected.append(val_result(res))
+        one = {"old": old, "new": new, "roots": roots, "code": code, "stream": "roots"}
+        ctx.case(one, res[0] == "ok" and len(res[1]) >= 2)
+        ctx.count("roots:" + ("antichain" if is_antichain(eff) else "overlapping"))
+        ctx.count("roots:n=%d" % len(roots))
+        for sig, what in roots_problems(old, new, roots, code, res):
+            ctx.oracle_fail(sig, what, one)
+    inp = "(%s, %s, %s, %s)" % (c_index(old), c_index(new), clist([c_key(r) for r in roots]),
+                                clist([cN(c) for c in codes]))
+    return (case, inp, vL(expected))
+
+
 def corpus_cases():
     d = os.path.join(VERIF, "corpus", "C08")
     out = []
@@ -824,6 +877,23 @@ def run(ctx):
     ctx.correspond("diff", IMPORTS, "option index * option index * list N",
                    "fun c => run_diffs (fst (fst c)) (snd (fst c)) (snd c)", items, shard=60)
 
+    # roots other than [()]
+    ritems = []
+    for old, new in wf_pairs[: ctx.n(60, 600)]:
+        if old is None and new is None:
+            continue
+        nodes = sorted({tuple(k[:i]) for k, _, _ in (old or []) + (new or []) for i in range(len(k) + 1)} | {()})
+        nroots = ctx.rng.choice([0, 1, 1, 2, 2, 3])
+        roots = [list(ctx.rng.choice(nodes + [("zz",)])) for _ in range(nroots)]
+        rcase = {"old": old, "new": new, "roots": roots, "codes": sample_codes(ctx, max(3, n_codes // 2)),
+                 "stream": "roots"}
+        ritems.append(judge_roots(ctx, rcase))
+    ctx.obligation("oracle:roots", not any(v.kind == "oracle" and "roots" in str(v.signature) for v in ctx.violations),
+                   f"{len(ritems)} (old, new, roots) bundles; prefix-free roots judged by the restricted flat reference")
+    ctx.correspond("diff_roots", IMPORTS, "option index * option index * list key * list N",
+                   "fun c => run_diffs_roots (fst (fst (fst c))) (snd (fst (fst c))) (snd (fst c)) (snd c)", ritems,
+                   shard=60)
+
     # info / ls / has_node
     titems = []
     for old, new in wf_pairs[: ctx.n(40, 300)]:
@@ -844,6 +914,14 @@ def run(ctx):
 def replay_case(ctx, case):
     if "decider" in case:
         return {"violates": False, "note": "decider table case; see the correspondence obligation"}
+    if case.get("stream") == "roots":
+        codes = case.get("codes") or [case["code"]]
+        out, problems = [], []
+        for c in codes:
+            res = real_diff(case["old"], case["new"], c, roots=case["roots"])
+            out.append({"code": c, "options": opt_flags(c), "result": res})
+            problems += roots_problems(case["old"], case["new"], case["roots"], c, res)
+        return {"results": out, "problems": problems, "violates": bool(problems)}
     codes = case.get("codes") or [case["code"]]
     out = []
     problems = []
